@@ -105,12 +105,14 @@ def rule_nf_split(ctx, prog, chk):
     return total, writes
 
 
-def rule_nf_kind(ctx, prog, chk, only):
+def rule_nf_kind(ctx, prog, chk, only, only_fn=None, rule=None):
     n = 0
     nwrites = 0
-    rule = "NF" if only == "raw" else "NF-SIGN"
+    rule = rule or ("NF" if only == "raw" else "NF-SIGN")
     for fn in prog.all:
         if not (fn.rfile.startswith("src/bn/") or "selftest" in fn.file):
+            continue
+        if only_fn is not None and not only_fn(fn):
             continue
         b = base(fn)
         if b in NF_EXEMPT:
